@@ -525,6 +525,58 @@ func evaluateX(im image, cfg drv.Cfg, withJournal, light bool) *outcome {
 	if p != "" {
 		o.Append = "panic while appending after recovery: " + p
 	}
+	if o.Append != "" || walkErr != "" || len(o.Views) > 0 {
+		return o // already reported: the views of this image disagree or it cannot be appended to
+	}
+	// the same through the recovering handle itself: nothing else has opened (and thereby
+	// repaired) the directory between the crash and the append
+	if err := im.materialise(dir); err != nil {
+		panic(err)
+	}
+	vrand.Reset()
+	p = safely(func() {
+		fo := ro
+		fo.Rollover = 1 << 20
+		lg, err := klevdb.Open(dir, fo)
+		if err != nil {
+			o.Append = "Open(Recover) of a second copy of the image failed: " + err.Error()
+			return
+		}
+		msg := klevdb.Message{Time: time.UnixMicro(drv.BaseT + 500).UTC(), Key: []byte("a"), Value: []byte("first")}
+		next, err := lg.Publish([]klevdb.Message{msg})
+		if err != nil {
+			o.Append = "Publish on the recovering handle failed: " + err.Error()
+		} else if next != n+1 {
+			o.Append = fmt.Sprintf("Publish on the recovering handle returned %d, NextOffset was %d", next, n)
+		}
+		if st, err := lg.Stat(); o.Append == "" && (err != nil || st.Messages != len(o.Walk)+1) {
+			o.Append = fmt.Sprintf("after a publish on the recovering handle Stat = (%d messages, %v), want %d", st.Messages, err, len(o.Walk)+1)
+		}
+		if err := lg.Close(); err != nil && o.Append == "" {
+			o.Append = "Close of the recovering handle after an append failed: " + err.Error()
+		}
+		if o.Append != "" {
+			return
+		}
+		if err := klevdb.Check(dir, cfg.Options()); err != nil {
+			o.Append = "Check after an append on the recovering handle failed: " + err.Error()
+			return
+		}
+		lg, err = klevdb.Open(dir, cfg.Options())
+		if err != nil {
+			o.Append = "Open after an append on the recovering handle failed: " + err.Error()
+			return
+		}
+		defer lg.Close()
+		got, gerr := lg.Get(n)
+		n2, _ := lg.NextOffset()
+		if gerr != nil || string(got.Value) != "first" || n2 != n+1 {
+			o.Append = fmt.Sprintf("the message appended on the recovering handle is gone after a reopen: Get(%d) = (%q, %v), NextOffset %d", n, got.Value, gerr, n2)
+		}
+	})
+	if p != "" {
+		o.Append = "panic while appending on the recovering handle: " + p
+	}
 	return o
 }
 
@@ -1051,9 +1103,13 @@ func expand(f *seqx.Family, t Task, letter string) (seqx.Succ, error) {
 		for _, c := range cf {
 			total *= len(c.cuts)
 		}
-		if total > 4000 {
-			s.Dis = append(s.Dis, drv.Dis{Props: []string{"CAP"}, Msg: fmt.Sprintf("more than 4000 tail-loss combinations at one point (%d)", total)})
-			total = 4000
+		comboCap := 4000
+		if t.Tier == "thorough" {
+			comboCap = 200000
+		}
+		if total > comboCap {
+			s.Dis = append(s.Dis, drv.Dis{Props: []string{"CAP"}, Msg: fmt.Sprintf("more than %d tail-loss combinations at one point (%d): the first %d were evaluated", comboCap, total, comboCap)})
+			total = comboCap
 		}
 		base := fs.full()
 		for combo := 0; combo < total; combo++ {
